@@ -295,7 +295,7 @@ def mon_c04_c06(h, obs, which):
             fp = f"{prop}/unordered-source-receipt-not-removed"
         hits.append(Hit(fp, msg, detail=detail))
 
-    interhub = any("s:relaychain" in o for o in h.ops)
+    interhub = any("s:relaychain" in o for o in h.ops) or " hub=1" in h.ops[0]
     for st in parse_trace(h, obs):
         if st[0] == "block":
             b = st[1]
@@ -364,7 +364,7 @@ def mon_c04_c06(h, obs, which):
                     continue
                 if o.deadline == b.h and o.status == 0:
                     o.status = 2
-                    src_chain = tid.split("-")[0].split(":")[1]
+                    src_chain = tid.split("-")[0].split(":")[1] if tid.startswith("1356:") else "default_union_pier_id"
                     if listed.get(tid, []) != [src_chain]:
                         hit("C06", "C06/timeout-not-listed-at-deadline",
                             f"{tid} accepted at {o.H} reached its timeout height {b.h} without a receipt but the block's timeout list has it for {listed.get(tid, [])}", b.raw, tid=tid)
